@@ -980,8 +980,9 @@ class IndicatorZero(Functional):
 
     def _call(self, x):
         """Apply the functional to the given point."""
-        if x.norm() == 0:
-            # In this case x is the zero-element.
+        if x == self.domain.zero():
+            # In this case x is the zero-element. (Not tested via the norm,
+            # which can underflow to 0 for tiny non-zero entries.)
             return self.constant
         else:
             return np.inf
